@@ -265,6 +265,40 @@ def batch_digest(agg):
     return hashlib.sha256(kernel.jdump(sorted(agg['digests'])).encode()).hexdigest()
 
 
+def anchor_coverage(prop, descs, n=120):
+    """Reach measure: which statements of the property's anchored source files a sample of this batch's runs executes
+    (one process, coverage.py tracing).  Returns {file: {statements, executed, percent}} or a note if unavailable."""
+    try:
+        import coverage
+        from . import loader
+        files = []
+        with open(os.path.join(VERIF, 'properties.jsonl')) as f:
+            for line in f:
+                pr = json.loads(line)
+                if pr['id'] == prop:
+                    files = pr['anchors']['files']
+        Eng = engine_factory(prop)
+        cov = coverage.Coverage(data_file=None, include=[os.path.join(loader.ROOT, 'bitstring', '*')])
+        cov.start()
+        try:
+            step = max(1, len(descs) // n)
+            for d in descs[::step][:n]:
+                Eng().run(d)
+        finally:
+            cov.stop()
+        out = {}
+        for rel in files:
+            path = os.path.join(loader.ROOT, rel)
+            try:
+                _, stmts, _, missing, _ = cov.analysis2(path)
+                out[rel] = {'statements': len(stmts), 'executed': len(stmts) - len(missing), 'percent': round(100.0 * (len(stmts) - len(missing)) / max(len(stmts), 1), 1)}
+            except Exception as e:      # file not touched at all / not measurable
+                out[rel] = {'note': type(e).__name__}
+        return out
+    except Exception as e:
+        return {'note': f'coverage measurement unavailable: {type(e).__name__}'}
+
+
 def write_evidence(prop, tier, seed, agg, violations, extra=None):
     os.makedirs(EVIDENCE_DIR, exist_ok=True)
     eng = agg['engine']
@@ -383,7 +417,12 @@ def check(prop, tier, seed, workers=None, runs=None):
         rc = max(rc, 1)
     if len(by_sig) > 8:
         print(f'  (+{len(by_sig) - 8} further distinct signatures not minimised: {sorted(by_sig)[8:]})')
-    _, weak = write_evidence(prop, tier, seed, agg, violations)
+    extra = None
+    if rc == 0 and not os.environ.get('BITSIM_NO_COVERAGE'):
+        sample = plan if plan is not None else Eng().plan(tier, seed)
+        extra = {'anchor_lines_hit': anchor_coverage(prop, sample),
+                 'anchor_lines_hit_rule': 'statement coverage (coverage.py) of the anchored files of properties.jsonl by ~120 runs of this batch re-executed in one traced process; import-time lines are not counted'}
+    _, weak = write_evidence(prop, tier, seed, agg, violations, extra)
     for p in weak:
         print(f'HARNESS-WEAK {p}')
     if rc == 0:
